@@ -196,8 +196,9 @@ def check(case):
     # NaN error figure then makes the optimizer keep the old preconditioner).
     require(bool(np.all(np.isfinite(x))), "finite",
             f"non-finite entries (reported error {err})")
-  require(not np.any(x[ps:, :]) and not np.any(x[:, ps:]), "padding-zero",
-          "non-zero entry on a padding row/column")
+  if np.all(np.isfinite(x)):       # (an all-NaN LOBPCG result, rejected through its NaN error, has no zero pattern)
+    require(not np.any(x[ps:, :]) and not np.any(x[:, ps:]), "padding-zero",
+            "non-zero entry on a padding row/column")
   # eigenvalue estimate never above the true largest eigenvalue
   mev = float(np.asarray(metrics.max_eigen_value))
   if case["rel"] and case["routine"] in ("newton", "lobpcg"):
